@@ -33,6 +33,7 @@ class Oblig:
 
 
 FEAS_TIMEOUT_MS = 2000
+MERGE_IF = True
 LAZY_SPEC = False
 _ALIVE = []
 MAX_INLINE_DEPTH = 14
@@ -275,8 +276,8 @@ class Interp:
                    z3.If(is_bool(t), get_b(t),
                    z3.If(is_int(t), get_i(t) != 0,
                    z3.If(is_flt(t), get_r(t) != 0,
-                   z3.If(is_str(t), z3.Length(get_s(t)) > 0,
-                   z3.If(is_byt(t), z3.Length(get_y(t)) > 0, sized)))))))
+                   z3.If(is_str(t), get_s(t) != z3.StringVal(""),
+                   z3.If(is_byt(t), get_y(t) != z3.StringVal(""), sized)))))))
         if isinstance(v, Tup): return z3.BoolVal(len(v.items) > 0)
         if isinstance(v, (LList, LDict)): return z3.BoolVal(len(st.lheap[v.id]) > 0)
         if isinstance(v, LSet): return z3.BoolVal(len(v.items) > 0)
@@ -452,9 +453,119 @@ class Interp:
         # `if typing.TYPE_CHECKING:` blocks are dropped (extraction rule)
         if _is_type_checking(s.test):
             return self.exec_block(st, s.orelse, fr)
-        return self.ev_cond(st, s.test, fr,
+        npc = len(st.pc)
+        base_ids = [id(c) for c in st.pc]
+        outs = self.ev_cond(st, s.test, fr,
                             lambda s2: self.exec_block(s2, s.body, fr),
                             lambda s2: self.exec_block(s2, s.orelse, fr))
+        return self.merge_normal(outs, npc, base_ids)
+
+    # ---- state merging at the join point of an `if` (keeps unrolled loops / option handling linear)
+    def merge_normal(self, outs, npc, base_ids):
+        if not MERGE_IF:
+            return outs
+        normal = [o for o in outs if o.kind == "normal"]
+        if len(normal) < 2:
+            return outs
+        for o in normal:
+            if len(o.st.pc) < npc or [id(c) for c in o.st.pc[:npc]] != base_ids:
+                return outs
+        try:
+            merged = self._merge_states([o.st for o in normal], npc)
+        except _NoMerge:
+            return outs
+        self.stats["merges"] = self.stats.get("merges", 0) + 1
+        rest = [o for o in outs if o.kind != "normal"]
+        return [Out(merged, "normal")] + rest
+
+    def _merge_states(self, sts, npc):
+        conds = []
+        for s_ in sts:
+            cs = [c for c in s_.pc[npc:] if id(c) not in s_.facts]
+            conds.append(z3.And(cs) if len(cs) > 1 else (cs[0] if cs else z3.BoolVal(True)))
+        def ite(vals):
+            t = vals[-1]
+            for c, v in zip(reversed(conds[:-1]), reversed(vals[:-1])):
+                t = z3.If(c, v, t)
+            return t
+        def mv(vals, where):
+            v0 = vals[0]
+            if all(v is v0 for v in vals):
+                return v0
+            if all(isinstance(v, Sym) for v in vals):
+                if all(z3.eq(v.t, v0.t) for v in vals):
+                    return v0
+                hint = v0.hint if all(v.hint == v0.hint for v in vals) else None
+                return Sym(ite([v.t for v in vals]), hint)
+            if all(isinstance(v, Tup) for v in vals) and len({len(v.items) for v in vals}) == 1:
+                return Tup([mv([v.items[i] for v in vals], where) for i in range(len(v0.items))])
+            if all(isinstance(v, ClassV) for v in vals) and len({v.q for v in vals}) == 1:
+                return v0
+            if all(isinstance(v, (LList, LDict)) for v in vals) and len({(type(v), v.id) for v in vals}) == 1:
+                return v0
+            if all(isinstance(v, LSet) for v in vals) and len({(v.items, v.frozen) for v in vals}) == 1:
+                return v0
+            if all(isinstance(v, (FuncV, BuiltinV, ModV)) for v in vals) and len({repr(v) for v in vals}) == 1:
+                return v0
+            raise _NoMerge()
+        m = sts[0].fork()
+        m.pc = list(sts[0].pc[:npc])
+        m.facts = set(); m.qfacts = set()
+        for s_ in sts:
+            m.facts |= s_.facts; m.qfacts |= s_.qfacts
+        # facts (definitions of fresh symbols) are lifted; branch conditions become the If-guards
+        seen = set()
+        for s_ in sts:
+            for c in s_.pc[npc:]:
+                if id(c) in s_.facts and id(c) not in seen:
+                    seen.add(id(c)); m.pc.append(c)
+        if not all(z3.is_true(c) for c in conds):
+            m.pc.append(z3.Or(conds))
+        # environment
+        keys = set(sts[0].env)
+        if any(set(s_.env) != keys for s_ in sts):
+            # a name bound on some branches only: keep it only if never read later is unknowable => no merge
+            raise _NoMerge()
+        m.env = {k_: mv([s_.env[k_] for s_ in sts], k_) for k_ in sts[0].env}
+        # local heap
+        ids = set()
+        for s_ in sts:
+            ids |= set(s_.lheap)
+        m.lheap = {}
+        for lid in ids:
+            have = [s_.lheap[lid] for s_ in sts if lid in s_.lheap]
+            if len(have) != len(sts):
+                m.lheap[lid] = list(have[0]) if isinstance(have[0], list) else dict(have[0])
+                continue
+            if isinstance(have[0], list):
+                if len({len(h) for h in have}) != 1:
+                    raise _NoMerge()
+                m.lheap[lid] = [mv([h[i] for h in have], lid) for i in range(len(have[0]))]
+            else:
+                if len({tuple(h.keys()) for h in have}) != 1:
+                    raise _NoMerge()
+                m.lheap[lid] = {k_: mv([h[k_] for h in have], lid) for k_ in have[0]}
+        # heap
+        names = set()
+        for s_ in sts:
+            names |= set(s_.heap)
+        m.heap = {}
+        for n_ in names:
+            arrs = [s_.arr(n_) for s_ in sts]
+            m.heap[n_] = arrs[0] if all(z3.eq(a, arrs[0]) for a in arrs) else ite(arrs)
+        fr_ = [s_.frontier for s_ in sts]
+        m.frontier = fr_[0] if all(z3.eq(f, fr_[0]) for f in fr_) else ite(fr_)
+        gk = set(sts[0].ghost)
+        if any(set(s_.ghost) != gk for s_ in sts):
+            raise _NoMerge()
+        m.ghost = {k_: mv([s_.ghost[k_] for s_ in sts], k_) for k_ in gk}
+        if any(len(s_.events) != len(sts[0].events) or any(a is not b for a, b in zip(s_.events, sts[0].events)) for s_ in sts):
+            raise _NoMerge()
+        if any(len(s_.exc_stack) != len(sts[0].exc_stack) for s_ in sts):
+            raise _NoMerge()
+        m.version = max(s_.version for s_ in sts) + 1
+        m.trace = list(sts[0].trace[:]) + [f"merge{len(sts)}"]
+        return m
 
     def ev_cond(self, st, test, fr, kt, kf):
         """Evaluate `test` for control flow, short-circuiting without building merged terms."""
